@@ -37,7 +37,7 @@ func init() {
 			"Driver programs on the zcrypto side: Handshake / Read / Write first, ConnectionState, GetHandshakeLog + json.Marshal, Close, optional concurrent ConnectionState observer. " +
 			"non-trivial = the endpoint was alive and waiting for input when the first faulted record was sent; distinct by (transcript, plan)",
 		MinNontrivial:         8000,
-		MinNontrivialThorough: 80000,
+		MinNontrivialThorough: 140000,
 		Shards:                16,
 		Env:                   []string{godebug},
 		Assumptions: []string{
@@ -709,8 +709,8 @@ func judge(c *core.Ctx, caseID string, input map[string]any, chunks [][]byte, o 
 func runC32(c *core.Ctx) {
 	scs := scenarios()
 	c.Count("scenarios", len(scs))
-	plansPer := c.Pick(110, 1500)
-	randomPer := c.Pick(15, 200)
+	plansPer := c.Pick(110, 3000)
+	randomPer := c.Pick(15, 400)
 	for si := range scs {
 		sc := &scs[si]
 		if si%c.NShards != c.Shard {
